@@ -3,10 +3,11 @@ import numpy as np
 from ai_edge_litert import interpreter as tfl
 
 
-def make(model_bytes):
+def make(model_bytes, reference_kernels=False):
   it = tfl.Interpreter(
       model_content=bytes(model_bytes),
-      experimental_op_resolver_type=tfl.OpResolverType.BUILTIN_WITHOUT_DEFAULT_DELEGATES,
+      experimental_op_resolver_type=(tfl.OpResolverType.BUILTIN_REF if reference_kernels else
+                                     tfl.OpResolverType.BUILTIN_WITHOUT_DEFAULT_DELEGATES),
       experimental_preserve_all_tensors=True)
   it.allocate_tensors()
   return it
